@@ -145,7 +145,8 @@ def main(argv):
     for f, k in kf:
         print('KNOWN-FINDING: property=%s %s %s -- %s' % (prop_id, f['unit'], f['oid'], k.get('what', '')))
     # vacuity guard: a few units of this property are re-checked with `ensures false` appended; the canary must FAIL
-    canaries = run_canaries(prop_id, scope, res, seed, 3 if tier == 'quick' else 12)
+    ncan = int(os.environ.get('VERIF_CANARIES', '3' if tier == 'quick' else '12'))
+    canaries = run_canaries(prop_id, scope, res, seed, ncan) if ncan > 0 else []
     bad = [c for c in canaries if c['verified_false']]
     if bad:
         for c in bad:
